@@ -61,11 +61,13 @@ def rule_dict_tables(ctx: Ctx, rule: str = "writer-reader-tables") -> None:
         ctx.cannot_decide(rule, tm.key, "returned dictionary", "to_machine_dict does not return one dict literal")
         return
     top = {k.value: v for k, v in zip(rets[0].value.keys, rets[0].value.values) if isinstance(k, ast.Constant)}
-    clause_keys: Set[str] = set()
-    for k, v in _dict_literal_keys(tm.node):
-        if k not in top:
-            clause_keys.add(k)
     from .rules_exc import with_new_helpers
+
+    clause_keys: Set[str] = set()
+    for root in with_new_helpers(prog, tm):
+        for k, v in _dict_literal_keys(root):
+            if root is not tm.node or k not in top:
+                clause_keys.add(k)
 
     read_top = {k for b, k in _subscript_read_keys(fd.node) if b == fd.params[0]}
     read_clause = {k for root in with_new_helpers(prog, fd) for b, k in _subscript_read_keys(root) if not (root is fd.node and b == fd.params[0])}
@@ -173,7 +175,9 @@ def rule_machine_exact(ctx: Ctx, rule: str = "machine-form-exact") -> None:
         fi = prog.func(key)
         bad = []
         n = 0
-        for node in ast.walk(fi.node):
+        from .rules_exc import with_new_helpers
+
+        for node in (x for root in with_new_helpers(prog, fi) for x in ast.walk(root)):
             if isinstance(node, ast.Call):
                 t = norm(node.func)
                 n += 1
@@ -183,19 +187,81 @@ def rule_machine_exact(ctx: Ctx, rule: str = "machine-form-exact") -> None:
                 bad.append(norm(node)[:60])
         construct = "%s passes numbers through unchanged (float() only)" % key
         (ctx.ok(rule, key, construct) if not bad else ctx.violation(rule, key, construct, "formats / rounds: %s" % bad[:2], where=fi.where))
-    # coefficient dictionary: {str(k): float(v) for k, v in term.variables.items()} ; constant from term.constant
+    # every clause of either side is written as {"constant": c, "coefficients": {name: coefficient}} of that very term
     fi = prog.func(PIC + "to_machine_dict")
+    me = fi.params[0]
+    paths = [p for p in Sim(prog, fi, loop_iters=(2,)).paths() if p.terminal == "return"]
     n = 0
-    for k, v in _dict_literal_keys(fi.node):
-        if k == "constant":
+
+    def unfloat(v, fn="float"):
+        return v[2][0] if isinstance(v, tuple) and v[0] == "call" and v[1] == fn and len(v[2]) == 1 else v
+
+    def elem_of(v, coll):
+        return isinstance(v, tuple) and len(v) == 4 and v[0] == "iter" and v[1] == coll
+
+    for p in paths:
+        val = p.value
+        if not (isinstance(val, tuple) and val[0] == "dict"):
+            ctx.cannot_decide(rule, fi.key, "machine clause fields", "to_machine_dict does not return a dictionary display: %s" % show(val, 2))
+            continue
+        top = {k[1]: v for k, v in val[1] if is_const(k)}
+        for key, fld in (("assumptions", "a"), ("guarantees", "g")):
+            construct = "to_machine_dict['%s']: one {constant, coefficients} clause per term of self.%s, numbers through float() only" % (key, fld)
+            v = top.get(key)
+            coll = ("attr", ("attr", ("param", me), fld), "terms")
+            if v is None:
+                ctx.violation(rule, fi.key, construct, "key not written", where=fi.where)
+                continue
+            if not (isinstance(v, tuple) and v[0] == "listcomp"):
+                ctx.cannot_decide(rule, fi.key, construct, "clause list is not a comprehension: %s" % show(v, 2))
+                continue
+            elt, gens = v[1], v[2]
             n += 1
-            okc = isinstance(v, ast.Call) and norm(v.func) == "float" and norm(v.args[0]).endswith(".constant") or norm(v).endswith(".constant")
-            (ctx.ok(rule, fi.key, "clause constant is the term's constant") if okc else ctx.violation(rule, fi.key, "clause constant is the term's constant", "is %s" % norm(v), where=fi.where))
-        if k == "coefficients":
-            n += 1
-            okc = isinstance(v, ast.DictComp) and norm(v.generators[0].iter).endswith(".variables.items()") and norm(v.value).replace("float(", "").rstrip(")") == norm(v.generators[0].target.elts[1])
-            (ctx.ok(rule, fi.key, "clause coefficients are the term's coefficients") if okc else ctx.violation(rule, fi.key, "clause coefficients are the term's coefficients", "is %s" % norm(v)[:80], where=fi.where))
-    ctx.floor("machine clause fields", n, 4)
+            if len(gens) != 1 or gens[0][0] != coll:
+                ctx.violation(rule, fi.key, construct, "iterates over %s" % [show(g[0], 3) for g in gens], where=fi.where)
+                continue
+            if gens[0][1]:
+                ctx.violation(rule, fi.key, construct, "terms are filtered: %s" % [show(c, 3) for c in gens[0][1]], where=fi.where)
+                continue
+            if not (isinstance(elt, tuple) and elt[0] == "dict"):
+                ctx.cannot_decide(rule, fi.key, construct, "clause is not a dictionary display: %s" % show(elt, 2))
+                continue
+            d = {k[1]: x for k, x in elt[1] if is_const(k)}
+            why = None
+            c = unfloat(d.get("constant"))
+            if not (isinstance(c, tuple) and c[0] == "attr" and c[2] == "constant" and elem_of(c[1], coll)):
+                why = "constant is %s" % show(d.get("constant"), 4)
+            co = d.get("coefficients")
+            if why is None:
+                if not (isinstance(co, tuple) and co[0] == "dictcomp"):
+                    why = "coefficients is %s" % show(co, 3)
+                else:
+                    (kx, vx), g2 = co[1], co[2]
+                    src = g2[0][0] if len(g2) == 1 else None
+                    okg = (
+                        src is not None
+                        and not g2[0][1]
+                        and src[0] == "mcall"
+                        and src[1] == "items"
+                        and src[2][0] == "attr"
+                        and src[2][2] == "variables"
+                        and elem_of(src[2][1], coll)
+                    )
+                    if src is not None and g2[0][1]:
+                        ctx.cannot_decide(rule, fi.key, construct, "coefficient entries are filtered by %s: whether the dropped entries matter is not decided" % [show(c, 3) for c in g2[0][1]])
+                        continue
+                    if not okg:
+                        why = "coefficients iterate over %s" % ([show(g[0], 4) for g in g2] + [show(c, 3) for g in g2 for c in g[1]])
+                    else:
+                        kk, vv = unfloat(kx, "str"), unfloat(vx)
+                        if isinstance(kk, tuple) and kk[0] == "attr" and kk[2] == "name":
+                            kk = kk[1]
+                        okk = isinstance(kk, tuple) and kk[0] == "item" and elem_of(kk[1], src) and kk[2] == 0
+                        okv = isinstance(vv, tuple) and vv[0] == "item" and elem_of(vv[1], src) and vv[2] == 1
+                        if not (okk and okv):
+                            why = "coefficient entry is %s: %s" % (show(kx, 4), show(vx, 4))
+            (ctx.ok(rule, fi.key, construct) if why is None else ctx.violation(rule, fi.key, construct, why, where=fi.where))
+    ctx.floor("machine clause fields", n, 2)
 
 
 def rule_file_tags(ctx: Ctx, rule: str = "file-tags") -> None:
@@ -295,8 +361,11 @@ def rule_printer_shape(ctx: Ctx, rule: str = "printer-folding") -> None:
         okc = rest[0] == "sub" and rest[1] == ("param", "terms") and rest[2][0] == "slice" and rest[2][1] == const(1) and rest[2][2] is None
         if okc and len(removes) > 1:
             okc = False
-        if okc and removes and not (removes[0]["recv"] == rest and removes[0]["args"][0][0] == "iter" and removes[0]["args"][0][1] == rest):
-            okc = False
+        if okc and removes:
+            a0 = removes[0]["args"][0]
+            partner_ok = a0[0] == "iter" and (a0[1] == rest or (a0[1] == ("param", "terms") and a0[3] >= 1))
+            if not (removes[0]["recv"] == rest and partner_ok):
+                okc = False
         (ctx.ok(rule, key, construct + " @ " + p.label()[:40], nontrivial=False) if okc else ctx.violation(rule, key, construct, "rest=%s removes=%d" % (show(rest, 3), len(removes)), where=fi.where))
         # folding conditions
         text = _string_template(sval)
